@@ -33,16 +33,16 @@ type propSpec struct {
 }
 
 var props = map[string]propSpec{
-	"C01": {"C01", []string{"genmap", "genselect"}, "", nil},
-	"C02": {"C02", []string{"genmap"}, "", nil},
-	"C03": {"C03", []string{"empty"}, "", nil},
-	"C04": {"C04", []string{"empty"}, "", nil},
-	"C05": {"C05", []string{"reset"}, "", nil},
-	"C06": {"C06", []string{"badfrom", "badto"}, "", nil},
-	"C07": {"C07", []string{"empty", "reset"}, "", nil},
-	"C08": {"C08", []string{"echo"}, "", nil},
-	"C09": {"C09", []string{"refresh"}, "", nil},
-	"C10": {"C10", []string{"genflags"}, "", nil},
+	"C01": {"C01", []string{"genmap", "genselect", "rnd-gen"}, "", nil},
+	"C02": {"C02", []string{"genmap", "rnd-gen"}, "", nil},
+	"C03": {"C03", []string{"empty", "rnd-empty"}, "", nil},
+	"C04": {"C04", []string{"empty", "rnd-empty"}, "", nil},
+	"C05": {"C05", []string{"reset", "rnd-reset"}, "", nil},
+	"C06": {"C06", []string{"badfrom", "badto", "rnd-badfrom", "rnd-badto"}, "", nil},
+	"C07": {"C07", []string{"empty", "reset", "rnd-empty", "rnd-reset"}, "", nil},
+	"C08": {"C08", []string{"echo", "rnd-echo"}, "", nil},
+	"C09": {"C09", []string{"refresh", "rnd-refresh"}, "", nil},
+	"C10": {"C10", []string{"genflags", "rnd-gen"}, "", nil},
 	"C11": {"C11", []string{"genaddr", "genexcl"}, "", nil},
 	"C12": {"C12", []string{"genselect"}, "", nil},
 	"C13": {"C13", []string{"gensep"}, "", nil},
@@ -52,7 +52,7 @@ var props = map[string]propSpec{
 	"C17": {"C17", []string{"custom", "custombad", "custombadto"}, "", nil},
 	"C18": {"C18", []string{"genwhole"}, "", nil},
 	"C19": {"C19", []string{"boundary"}, "", nil},
-	"C20": {"C20", []string{"empty"}, "", nil},
+	"C20": {"C20", []string{"empty", "rnd-empty"}, "", nil},
 }
 
 type knownFinding struct {
@@ -94,6 +94,9 @@ func main() {
 	}
 	if os.Args[1] == "setup" {
 		os.Exit(setup())
+	}
+	if os.Args[1] == "family" {
+		os.Exit(familyDebug(os.Args[2:]))
 	}
 	id := os.Args[1]
 	tier := os.Getenv("VERIF_TIER")
@@ -403,5 +406,62 @@ func setup() int {
 		}
 	}
 	fmt.Println("setup: specification parses; harness built")
+	return 0
+}
+
+// familyDebug: `check family <name> [quick|thorough] [seed]` runs one family and prints every violation group of
+// every property plus the drift (development aid; no verdict, no evidence).
+func familyDebug(args []string) int {
+	if len(args) < 1 {
+		fail2("usage: check family <name> [tier] [seed]")
+	}
+	fam, ok := sessFamilies[args[0]]
+	if !ok {
+		fail2("unknown family %q", args[0])
+	}
+	tier, seed := "quick", int64(1)
+	if len(args) > 1 {
+		tier = args[1]
+	}
+	if len(args) > 2 {
+		seed, _ = strconv.ParseInt(args[2], 10, 64)
+	}
+	env, cleanup := newEnv()
+	defer cleanup()
+	r, err := runSessionFamily(env, fam, tier, seed, "")
+	if err != nil {
+		cleanup()
+		fail2("%v", err)
+	}
+	groups := map[string]int{}
+	first := map[string]ViolInst{}
+	for _, v := range r.Violations {
+		k := v.Clause + " | " + v.Sig
+		groups[k]++
+		if _, ok := first[k]; !ok {
+			first[k] = v
+		}
+	}
+	keys := []string{}
+	for k := range groups {
+		keys = append(keys, k)
+	}
+	sort.Strings(keys)
+	for _, k := range keys {
+		fmt.Printf("%5d  %s   (first: %s %s field %s)\n", groups[k], k, first[k].Behaviour, first[k].Ev, first[k].Path)
+	}
+	for i, d := range r.Drift {
+		if i < 12 {
+			fmt.Printf("drift  %s %s: %s\n", d.Behaviour, d.Ev, d.What)
+		}
+	}
+	for k, v := range r.CompileFail {
+		fmt.Printf("compile failure %s: %.300s\n", k, v)
+	}
+	for _, h := range r.HarnessErr {
+		fmt.Printf("harness error: %s\n", h)
+	}
+	fmt.Printf("family %s %s seed %d: %d shapes, %d behaviours, %d lines, %d violation instances in %d groups, drift %d, mc states %d (%.1fs), evald %v\n",
+		fam.Name, tier, seed, r.Shapes, r.Behaviours, r.TraceLines, len(r.Violations), len(groups), len(r.Drift), r.MCStates, r.WallS, r.Evald)
 	return 0
 }
